@@ -84,6 +84,7 @@ type Gen struct {
 	noEmit    int
 	noYield   int
 	level     int
+	Sites     int // number of fault(i) sites planted so far (errors profile)
 }
 
 func New(t *rapid.T, p *Profile) *Gen {
